@@ -2,7 +2,7 @@ use ascii::AsciiString;
 
 use std::io::Error as IoError;
 use std::io::Result as IoResult;
-use std::io::{BufReader, BufWriter, ErrorKind, Read};
+use std::io::{BufReader, BufWriter, ErrorKind, Read, Write};
 
 use std::net::SocketAddr;
 use std::str::FromStr;
@@ -230,14 +230,19 @@ impl Iterator for ClientConnection {
 
             // checking HTTP version
             if *rq.http_version() > (1, 1) {
-                let writer = self.sink.next().unwrap();
+                // answering on the writer of the rejected request itself: asking the
+                // sink for another one would make us wait for a turn that only comes
+                // once this request, which we are still holding, has been answered
+                let mut writer = rq.into_writer();
                 let response = Response::from_string(
                     "This server only supports HTTP versions 1.0 and 1.1".to_owned(),
                 )
                 .with_status_code(StatusCode(505));
                 response
-                    .raw_print(writer, HTTPVersion(1, 1), &[], false, None)
+                    .raw_print(writer.by_ref(), HTTPVersion(1, 1), &[], false, None)
                     .ok();
+                writer.flush().ok();
+                drop(writer);
                 continue;
             }
 
